@@ -54,6 +54,7 @@ func checkC04(r *Run) {
 	r.Explain = "C04: (R1) every path to chainStore.AddBlock passes the publisher-signature check, except through the exported Unsafe variant whose in-module callers are enumerated; (R2) the header that was signature-checked is the header stored: no store to a BlockHeader field between the check and AddBlock; (R3) verifyBlockHeader succeeds only with seq==head+1, time>head time, prevhash==head hash, bodyhash==hash(body); verifyUxHash; second genesis refused; these are the only rejections; (R4) no error of a db accessor is dropped inside a tx function (a swallowed error would commit a partial state)."
 	r.NotDec = "bolt's rollback itself (trusted); that HashHeader/Body.Hash compute the right bytes (C21)"
 	ruleSignedHashAcceptors(r, "C04-R7")
+	ruleBlockSigChain(r, "C04-R1")
 	ruleNoStateBesideTx(r, "C04-R6")
 	// R1
 	r.RequireOnSuccess("C04-R1", "visor.Visor.executeSignedBlock",
